@@ -869,12 +869,18 @@ func (x *Exec) goStmt(fr *Frame, st *State, v *ssa.Go) {
 		x.note(fmt.Sprintf("go %s: no contract, effects not modelled", shortKey(key)))
 		return
 	}
-	all := append(append([]Value{}, f.Bind...), args...)
-	if len(f.Bind) > 0 {
-		// closure: captured variables are not parameters of the contract; only its frame is applied
-		all = args
+	all := args
+	// closure: the captured variables are visible to its contract under their names
+	x.spawnBinds = map[string]Value{}
+	for i, fv := range f.Fn.FreeVars {
+		if i < len(f.Bind) {
+			if pv, ok := f.Bind[i].(*PtrV); ok && pv.Loc != nil {
+				x.spawnBinds[fv.Name()] = x.load(st, pv.Loc)
+			}
+		}
 	}
 	x.spawning = true
 	x.applyContract(fr, st, ct, key, f.Fn.Signature, f.Fn, all, v.Pos(), func(st2 *State, _ Value) {})
 	x.spawning = false
+	x.spawnBinds = nil
 }
